@@ -85,12 +85,19 @@ func runRepeat(bi *buildInfo, rc *repeatCase) (outs []string, exits []int) {
 			args = append([]string{"-enable-all", rules}, rc.Args...)
 		}
 		args = append(args, strings.Fields(rc.Target)...)
-		cmd := exec.Command(filepath.Join(bi.Dir, "frontends", bin), args...)
-		cmd.Dir = rc.Dir
-		cmd.Env = append(goEnv(), fmt.Sprintf("GOMAXPROCS=%d", gmps[k%len(gmps)]))
 		var buf bytes.Buffer
-		cmd.Stdout, cmd.Stderr = &buf, &buf
-		err := cmd.Run()
+		var err error
+		for try := 0; try < 3; try++ {
+			cmd := exec.Command(filepath.Join(bi.Dir, "frontends", bin), args...)
+			cmd.Dir = rc.Dir
+			cmd.Env = append(goEnv(), fmt.Sprintf("GOMAXPROCS=%d", gmps[k%len(gmps)]))
+			buf.Reset()
+			cmd.Stdout, cmd.Stderr = &buf, &buf
+			if err = cmd.Run(); !killedSilently(err, buf.String()) {
+				break
+			}
+			time.Sleep(3 * time.Second)
+		}
 		code := 0
 		if err != nil {
 			code = -1
